@@ -113,7 +113,7 @@ bool NaorPinkasEOTP::CheckGroup
 		// Compute $k := (p - 1) / q$
 		mpz_set(k, p);
 		mpz_sub_ui(k, k, 1L);
-		if (!mpz_cmp_ui(q, 0L))
+		if (mpz_sgn(q) <= 0) // zero or negative order
 			throw false;
 		mpz_div(k, k, q);
 		
